@@ -569,10 +569,11 @@ class Overlay(Widget, WidgetContainerMixin, WidgetContainerListContentsMixin, ty
     ) -> str | None:
         """Pass keypress to top_w."""
         real_size = self.pack(size, True)
-        return self.top_w.keypress(
-            self.top_w_size(real_size, *self.calculate_padding_filler(real_size, True)),
-            key,
-        )
+        top_size = self.top_w_size(real_size, *self.calculate_padding_filler(real_size, True))
+        if 0 in top_size:
+            # top_w is not displayed at this size
+            return key
+        return self.top_w.keypress(top_size, key)
 
     @property
     def focus(self) -> TopWidget:
@@ -874,7 +875,12 @@ class Overlay(Widget, WidgetContainerMixin, WidgetContainerListContentsMixin, ty
         if not bottom_c.cols() or not bottom_c.rows():
             return CompositeCanvas(bottom_c)
 
-        top_c = self.top_w.render(self.top_w_size(real_size, left, right, top, bottom), focus)
+        top_size = self.top_w_size(real_size, left, right, top, bottom)
+        if 0 in top_size:
+            # the relative size of top_w rounds to no rows or no columns here: only bottom_w shows
+            return CompositeCanvas(bottom_c)
+
+        top_c = self.top_w.render(top_size, focus)
         top_c = CompositeCanvas(top_c)
         if left < 0 or right < 0:
             top_c.pad_trim_left_right(min(0, left), min(0, right))
